@@ -95,6 +95,23 @@ structure Await where
   awaited : Int := 0
 deriving Repr, DecidableEq
 
+/-- what an iteration of the await loop of `Engine.Run` receives: the result of a pool, or the engine context done -/
+inductive EngEv
+  | result (errNil : Bool)
+  | ctxDone
+deriving Repr, DecidableEq
+
+/-- how `Engine.Run` returns -/
+inductive EngRet | ok | failed | cancelled
+deriving Repr, DecidableEq
+
+structure EngRes where
+  /-- pool results awaited without error so far -/
+  awaited : Int
+  /-- `none`: still waiting -/
+  ret : Option EngRet
+deriving Repr, DecidableEq
+
 end Pandora.Go.C12
 
 namespace Pandora.Model.C12
